@@ -143,6 +143,9 @@ func verifQuiesce()                        { time.Sleep(300 * time.Millisecond) 
 func verifLiveThreads() int                { verifNotNative("verifLiveThreads"); return 0 }
 func verifAdvanceTime()                    { time.Sleep(1200 * time.Millisecond) }
 func verifSymbolicClock()                  {}
+func verifHelperExit(int)                  { verifNotNative("verifHelper") }
+func verifHelperOutput([]byte)             { verifNotNative("verifHelper") }
+func verifHelperState() int                { verifNotNative("verifHelper"); return 0 }
 func verifAbstractName(int) string         { verifNotNative("verifAbstractName"); return "" }
 func verifOpaqueASCII(int, int) string     { verifNotNative("verifOpaqueASCII"); return "" }
 func verifDisplayWidth(string) int         { verifNotNative("verifDisplayWidth"); return 0 }
